@@ -343,13 +343,12 @@ def change_db_column_and_db_index_together(case, outcome, atoms):
     start, final = trail[0], trail[-1]
     hit = {}
     if case.get('mode') == 'hinted':
-        olds = {}
-        for a, n, m in S.iter_models(start):
-            for f in m['fields']:
-                olds[f['uid']] = f
         for a, n, m in S.iter_models(final):
+            m0 = S.get_model(start, a, n)
+            if m0 is None:
+                continue
             for f in m['fields']:
-                o = olds.get(f['uid'])
+                o = S.get_field(m0, f['name'])
                 if o and f['kind'] != 'ManyToMany' and S.column_of(o) != S.column_of(f) and \
                         f['db_index'] and not o['db_index'] and o['kind'] == f['kind']:
                     hit[(S.table_of(a, m), S.column_of(f))] = S.column_of(o)
@@ -456,6 +455,22 @@ def renamed_indexed_field_keeps_index_name(case, outcome, atoms):
     return [a for a in atoms
             if not (a[0] == 'exception' and a[2] == 'DatabaseStateError' and
                     'already exists' in str(a[4]))]
+
+
+@explainer
+def callable_initial_breaks_unique_column(case, outcome, atoms):
+    """F-C02-1 with a unique index in the way: ChangeField(null=False,
+    initial=<callable>) writes the literal into every row of the column; when
+    the column is (or becomes, in the same run) covered by a single-column unique
+    index the rebuild fails with 'UNIQUE constraint failed'."""
+    trig = any(mut['kind'] == 'ChangeField' and mut['attrs'].get('null') is False and
+               isinstance(mut.get('initial'), dict) and 'callable' in mut['initial']
+               for mut in case['seq'])
+    if not trig:
+        return atoms
+    return [a for a in atoms
+            if not (a[0] == 'exception' and a[2] == 'IntegrityError' and
+                    'UNIQUE constraint failed' in str(a[4]))]
 
 
 @explainer
@@ -645,10 +660,13 @@ def db_index_false_with_rebuild_in_one_change(case, outcome, atoms):
     final = trail[-1]
     cols = set()
     if case.get('mode') == 'hinted':
-        olds = {f['uid']: f for a, n, m in S.iter_models(trail[0]) for f in m['fields']}
+        # (the hint pairs fields by model and field *name*)
         for a, n, m in S.iter_models(final):
+            m0 = S.get_model(trail[0], a, n)
+            if m0 is None:
+                continue
             for f in m['fields']:
-                o = olds.get(f['uid'])
+                o = S.get_field(m0, f['name'])
                 if o and o['kind'] == f['kind'] and o['db_index'] and not f['db_index'] and \
                         any(o[k] != f[k] for k in ('unique', 'null', 'max_length', 'max_digits',
                                                    'decimal_places')):
